@@ -178,12 +178,12 @@ def run(ctx, chk):
                        key="%s:refuse:%d" % (name, k))
             if inb is None and not acc and not delegated and name != "cbor_array_set":
                 chk.ob("C12.index", "%s path %d has no bound test" % (name, k), False, where, fn=name, key="%s:nobound:%d" % (name, k))
-    chk.floor("C12.index", "indexed accesses / refusals", nidx, 6)
+    chk.floor("C12.index", "indexed accesses / refusals", nidx, 4)
 
     # ---- capacity & growth
     G = int(prog.values["CBOR_BUFFER_GROWTH"])
     n = growth_rules(chk, prog, eff, G, "G=%d" % G)
-    chk.floor("C12.growth", "growth paths", n, 8)
+    chk.floor("C12.growth", "growth paths", n, 5)
     if ctx.tier == "thorough":
         for g2 in (3, 4):
             pr = ctx.prog(overrides={"CBOR_BUFFER_GROWTH": g2}, with_controls=False)
